@@ -1,6 +1,6 @@
 SPECIFICATION GenSpec
 CONSTANTS
-  RT = 2
+  RT = 3
   Limit = 0
   StaleRule = "impl"
   LabelsOf <- MCLabels
